@@ -24,6 +24,8 @@ TIMES = 'history/times.py'; HFILES = 'history/files.py'; TNETS = 'server/tnetstr
 POLL = 'server/enip/poll.py'; DEFAULTS = 'server/enip/defaults.py'; NETWORK = 'server/network.py'
 
 VARIANTS = [
+    V( 'direction-api-from-the-other-side', DEVICE, "fo.T_O.API = fo.T_O.RPI", "fo.T_O.API		= fo.O_T.RPI", fires=[ 'K-DIRECTION' ] ),
+    V( 'offsets-member-padded-to-a-word', DEVICE, "req = cls.produce( r )\n offsets = [ 0 ] + [ o + len( req ) for o in offsets ]", "req		= cls.produce( r )\n                req	       += b'\\x00' * ( len( req ) % 2 )\n                offsets		= [ 0 ] + [ o + len( req ) for o in offsets ]", fires=[ 'A-OFFSETS' ] ),
     V( 'methods-write-without-data-size-hint', CLIENT, "send_path=None, timeout=None, send=True,\n data_size=None, # for response data_size estimation (as for the other services)\n sender_context=b'', **kwds ):\n req = dotdict()\n seg,elm,cnt = device.parse_path_elements( path )\n if cnt is not None:\n elements = cnt\n req.path = { 'segment': [ dotdict( s ) for s in seg ]}\n if tag_type is None:", "send_path=None, timeout=None, send=True,\n               sender_context=b'', **kwds ):\n        req			= dotdict()\n        seg,elm,cnt		= device.parse_path_elements( path )\n        if cnt is not None:\n            elements		= cnt\n        req.path		= { 'segment': [ dotdict( s ) for s in seg ]}\n        if tag_type is None:", fires=[ 'T-METHODS' ] ),
     V( 'opvalues-stripped-before-cast', CLIENT, "opr['data'] = list( map( cast, val_list ))", "opr['data']		= list( map( cast, ( v.strip() for v in val_list )))", fires=[ 'T-OPVALUES' ] ),
     V( 'opvalues-cast-by-comprehension', CLIENT, "opr['data'] = list( map( cast, val_list ))", "opr['data']		= [ cast( v ) for v in val_list ]", silent=[ 'T-OPVALUES' ] ),
